@@ -82,6 +82,13 @@ CLAIMED = {
          'K reproduced with explicit common factor, non-negativity, forced chemicals), lle/vle wrappers with efficiency, phase_split, chemical_splits, material_balance.',
          'Trusted: Coq kernel + vm_compute; hand-written model coq/C20/Model.v; harness props/C20.py; oracle contracts (A x = b; rowL + rowl = feed); no axioms.',
          'DESIGN.md section 3 C20, section 8'),
+ 'C18': ('Coq proof that the docking invariant is preserved by every rewiring operation within its precondition, lifted to all operation sequences + correspondence against real AbstractUnit/AbstractStream objects (random histories, bounded exhaustive enumeration)',
+         'Inv (in ins iff sink, in outs iff source, no object in two ports, fixed lists keep size, placeholders point back and are empty) is '
+         'preserved by each modelled operation (StreamSequence ops, pipes, unit.insert/disconnect/take_place_of/replace_with, reconnect, constructors) '
+         'within exactly the property preconditions; per-precondition counterexamples show none can be dropped; lifted by induction to all histories.',
+         'Trusted: Coq kernel + vm_compute; hand-written model coq/C18/Model.v; harness props/C18.py (per-step states folded into a rolling checksum, '
+         'final state compared in full); no axioms.',
+         'DESIGN.md section 3 C18, Appendix C, section 8'),
  'C19': ('Coq proof of Network.sort (permutation, topological order, quiet) + verified certificate checker evaluated in Coq on every observed Network.from_units result; correspondence for sort/PathSource',
          'Part 1: Network.sort is modelled loop for loop and proved for every path and every strict partial order reach (perm, topo, no '
          'warning, input-order independence). Part 2: a Gallina checker for complete from_units results with soundness theorems against the '
